@@ -221,7 +221,7 @@ fn main() {
          mode × profile (roots), version × size class of every sub-chunk × liquid grid class (groups), from→to (conversions)",
     );
     check.assume("the chunk walker, record sizes and reference encodings are my transcription of the published WMO v17 description (wowdev.wiki): MOHD 64, MOMT 64, MOGI 32, MOPT 20, MOPR 8, MOLT 48, MODS 32, MODD 40, MOGP header 68, MOBA 24, MOBN 16 (flags, negChild, posChild, nFaces, faceStart, planeDist)");
-    check.assume("input domain: flag fields use defined bits only; texture names non-empty; doodad-set names ≤19 ASCII bytes; visibility lists do not contain the in-band terminator 0xFFFF; liquid vertices = width×height, tile flags = (width-1)×(height-1); batches without the large-id flag have material ids < 256; NaN excluded; a skybox is only given to versions that can hold one (WotLK+)");
+    check.assume("input domain: flag fields use defined bits only; texture names non-empty; doodad-set names ≤19 ASCII bytes; visibility lists do not contain the in-band terminator 0xFFFF; liquid vertices = width×height, tile flags = (width-1)×(height-1); batches without the large-id flag have material ids < 256; NaN excluded; a skybox given to a version without a slot for one (pre-WotLK) is expected to be dropped completely by the writer");
     check.assume("fields the writer deliberately leaves out and the statement does not list are not compared: material framebuffer_blend, light spot/directional parameters, doodad set_index, group material list, MOGP portal/batch/fog fields, group doodad references");
     check.assume("legacy visibility lists (MOVV offsets + MOVB u16 runs) are the crate's private encoding; they are only compared through the legacy parser");
     check.assume("where a known defect garbles everything downstream (MOMT size, MOHD size, MOGP header size) the remaining clauses are evaluated on a copy in which exactly that size/header was repaired by the harness; the defect itself is measured on the bytes as written");
